@@ -101,13 +101,46 @@ class FunctionInteractionsUtils(object):
     def all_store_paths(
         cls, fi: FunctionInteractions
     ) -> "OrderedDict[DDSPath, PyHash]":
-        res: List[Tuple[DDSPath, PyHash]] = []
-        if fi.store_path is not None:
-            res.append((fi.store_path, fi.fun_return_sig))
+        res: "OrderedDict[DDSPath, PyHash]" = OrderedDict()
+        kept: "OrderedDict[DDSPath, FunctionInteractions]" = OrderedDict()
+        for fi_ in cls._all_kept(fi):
+            assert fi_.store_path is not None
+            first = kept.setdefault(fi_.store_path, fi_)
+            if cls._distinct_results(first, fi_):
+                # A path designates one result. All the calls that keep it would be given the
+                # signature of the last one: the first function evaluated would be stored in its place.
+                raise DDSException(
+                    f"The path {fi_.store_path} is kept more than once in the same evaluation, with"
+                    f" different functions or arguments ({first.fun_path} and {fi_.fun_path})."
+                    f" Suggestion: use a different path for each result.",
+                    DDSErrorCode.OVERLAPPING_PATH,
+                )
+            res[fi_.store_path] = fi_.fun_return_sig
+        return res
+
+    @classmethod
+    def _all_kept(cls, fi: FunctionInteractions) -> List[FunctionInteractions]:
+        res = [fi] if fi.store_path is not None else []
         for fi0 in fi.parsed_body:
             if isinstance(fi0, FunctionInteractions):
-                res += cls.all_store_paths(fi0).items()
-        return OrderedDict(res)
+                res += cls._all_kept(fi0)
+        return res
+
+    @staticmethod
+    def _distinct_results(
+        fi1: FunctionInteractions, fi2: FunctionInteractions
+    ) -> bool:
+        """
+        True if the two calls certainly designate different results: different functions, or the same
+        function with different arguments, all known when the code is analyzed.
+        (The same call may be analyzed more than once, in different contexts.)
+        """
+        if fi1.fun_path != fi2.fun_path:
+            return True
+        (args1, args2) = (fi1.arg_input.named_args, fi2.arg_input.named_args)
+        if any(h is None for h in list(args1.values()) + list(args2.values())):
+            return False
+        return args1 != args2
 
     @classmethod
     def all_indirect_deps(cls, fis: FunctionInteractions) -> Set[DDSPath]:
